@@ -203,7 +203,7 @@ def check_good(ctx, good):
         out = r.out.reshape(nb, -1).tolist() if nb else []
         for b in range(nb):
             sc = max(1.0, max((abs(v) for v in outs[b]), default=0.0))
-            e = max((abs(a - c) for a, c in zip(out[b], outs[b])), default=0.0)
+            e = C.nmax(abs(a - c) for a, c in zip(out[b], outs[b]))
             if not (e <= tf * sc) or len(out[b]) != len(outs[b]):
                 ctx.disagree("batch.fwd", case, f"batched value of {ps}: item {b} err {e:.3e}")
                 break
@@ -224,12 +224,12 @@ def check_good(ctx, good):
             pyacc = C.leaf_rows(case, M, li, "grad")
             for i, (gr, wr) in enumerate(zip(got, grads[li])):
                 s_ = max(wabs[i], default=0.0) + cm[i]
-                err = max((abs(a - b) for a, b in zip(gr, wr)), default=0.0)
+                err = C.nmax(abs(a - b) for a, b in zip(gr, wr))
                 tol = t * s_ + tiny + jv * s_
                 if not (err <= tol) and bad is None:
                     bad = (li, i, err, tol)
                 # the Python index mapping / reduction used by the other streams agrees with the model's own
-                e2 = max((abs(a - b) for a, b in zip(pyacc[i], wr)), default=0.0)
+                e2 = C.nmax(abs(a - b) for a, b in zip(pyacc[i], wr))
                 if not (e2 <= 1e-13 * (s_ + 1e-300)):
                     ctx.disagree("batch.python-mapping", case, f"{ps}: leaf {li} item {i}: Python-accumulated model gradient differs from "
                                                                f"the model's bgrad by {e2:.3e}")
